@@ -198,7 +198,7 @@ func leaves(v interface{}, into map[string]bool) {
 	}
 }
 
-var c09FaultKinds = []string{"transport", "errors", "short", "long", "nulldata", "nonode", "node_not_map", "wrong_shape",
+var c09FaultKinds = []string{"transport", "errors", "short", "long", "nulldata", "nonode", "node_not_map", "node_empty_list", "node_list", "node_number", "node_bool", "wrong_shape",
 	"deep_obj_to_empty_list", "deep_obj_to_list", "deep_obj_to_scalar", "deep_list_to_obj", "deep_list_to_scalar"}
 
 func isFailureSignal(k string) bool { return k != "wrong_shape" && !strings.HasPrefix(k, "deep_") }
@@ -361,7 +361,7 @@ func driveC09(seed int64, tier, out, replay string) {
 						for _, l := range r.Logs() {
 							leaves(l.Answer, have)
 						}
-						have["unexpected"], have["list"], have["object"], have["not-an-object"], have["oops"] = true, true, true, true, true
+						have["unexpected"], have["list"], have["object"], have["not-an-object"], have["oops"], have["7"], have["false"] = true, true, true, true, true, true, true
 						for v := range got {
 							if !have[v] {
 								what = fmt.Sprintf("value %q in data was not returned by any service (fault %s)", v, kind)
